@@ -477,4 +477,6 @@ Ltac prop_step leaf :=
   end.
 
 (* a leaf for predicates that do not look at the changed fields: the hypothesis is convertible *)
-Ltac leaf_conv := idtac; match goal with H : ?P ?m |- ?P _ => exact H end.
+Ltac leaf_conv :=
+  idtac; first [ match goal with H : ?P ?m |- ?P _ => exact H end
+               | match goal with |- ?P (set _ _ ?x) => change (P x) end ].
